@@ -305,10 +305,80 @@ func runKeys(w *World, p map[string]int, prop string) {
 				break
 			}
 			bits := bitsChoices[t.Int(len(bitsChoices))]
+			zeroLead := 0
+			if t.Bool(25) {
+				// entropy that starts with zero bytes (big-number round trips
+				// drop them unless somebody pads)
+				zeroLead = 1 + t.Int(4)
+				w.Crypto.ZeroPrefix = zeroLead
+			}
 			ws, err := inst.CreateWallet(fmt.Sprintf("Priv%dpass#", len(kws)), bits, true)
+			w.Crypto.ZeroPrefix = 0
 			if err != nil {
 				w.Violate(prop+".create-failed", "CreateWallet(%d bits): %v", bits, err)
 				break
+			}
+			if zeroLead > 0 {
+				if ent, e := keystore.EntropyFromMnemonic(ws.Mnemonic); e == nil && len(ent) > 0 && ent[0] == 0 {
+					w.Stat("probe.entropy_with_leading_zero_bytes")
+					func(ws *WalletState) {
+						// the restore chain such entropy has to survive: mnemonic ->
+						// another instance -> reveal there -> export there -> a third
+						if len(w.Violations) > 0 {
+							return
+						}
+						var others []*Instance
+						for _, o := range insts {
+							if o != inst && o.Wallets[ws.ID] == nil && o.Started && o.WM != nil {
+								others = append(others, o)
+							}
+						}
+						if len(others) == 0 {
+							return
+						}
+						o1 := others[0]
+						nw, err := o1.ImportMnemonicIdx(ws, uint32(len(ws.Issued)), 0, true)
+						if err != nil {
+							w.Violate(prop+".import-failed", "ImportWalletWithMnemonic (entropy with %d leading zero bytes): %v", zeroLead, err)
+							return
+						}
+						if nw.ID != ws.ID {
+							w.Violate("C04.id-mismatch", "mnemonic restored on %s has id %s, original %s", o1.Name, nw.ID, ws.ID)
+							return
+						}
+						nw.Issued = append([]IssuedAddr(nil), ws.Issued...)
+						w.S.Quiesce(20000)
+						o1.SyncIssued(nw)
+						var mn string
+						var gerr error
+						o1.RunCall("GetMnemonic", true, func() { mn, _, gerr = o1.WM.GetMnemonic(nw.ID, nw.Pass) })
+						if gerr != nil || mn != ws.Mnemonic {
+							w.Violate(prop+".mnemonic-mismatch", "GetMnemonic on the restored wallet (entropy with %d leading zero bytes) returned err=%v, matches=%v", zeroLead, gerr, mn == ws.Mnemonic)
+							return
+						}
+						js, xerr := o1.ExportWallet(nw.ID, nw.Pass, true)
+						if xerr != nil {
+							w.Violate(prop+".export-failed", "ExportWallet of the restored wallet: %v", xerr)
+							return
+						}
+						if len(others) > 1 {
+							o2 := others[1]
+							n2, ierr := o2.ImportKeystore(nw, js, true)
+							if ierr != nil {
+								w.Violate(prop+".import-failed", "ImportWallet of the keystore exported by the restored wallet (entropy with %d leading zero bytes): %v", zeroLead, ierr)
+								return
+							}
+							if n2.ID != ws.ID {
+								w.Violate("C04.id-mismatch", "keystore exported by the restored wallet imports as %s, original %s", n2.ID, ws.ID)
+								return
+							}
+							n2.Issued = append([]IssuedAddr(nil), nw.Issued...)
+							w.S.Quiesce(20000)
+							o2.SyncIssued(n2)
+						}
+						w.Stat("check.leading_zero_entropy_restore_chain")
+					}(ws)
+				}
 			}
 			if ws.HD.ID != ws.ID {
 				w.Violate("C04.id-mismatch", "wallet id %s, independent derivation %s", ws.ID, ws.HD.ID)
